@@ -7,6 +7,8 @@ import ExponaxModel.Proofs.AliasND2Grad
 import ExponaxModel.Proofs.AliasND2Conv
 import ExponaxModel.Proofs.AliasND2Vort
 import ExponaxModel.Proofs.AliasND2React
+import ExponaxModel.Proofs.AliasND3Basic
+import ExponaxModel.Proofs.AliasND3Rot
 /-
 C03 — nonlinear terms equal the alias-free projection of the documented operator.
 
@@ -291,11 +293,7 @@ theorem C03_generated_cutoff_floor (c : Cfg ℂ) (hq : c.fq ≠ 0) :
   rw [h1, Rat.floor_intCast_div_natCast]
   rfl
 
-/-
-Not proved in Lean: the per-term statement for the 3-D rotational term `projected3d`, the Belousov–Zhabotinsky reaction
-and `general` in D ≥ 2 (model terms tied to the implementation by the correspondence and to the documented operator by
-the 4x-oversampled oracle); "zero outside the band" is proved for all terms (C03_zero_outside_band).
--/
+
 
 
 example : ∃ c : Cfg ℂ, c.D = 1 ∧ c.fp = 2 ∧ c.fq = 3 ∧ 0 < c.N ∧ mask c 3 = 1 :=
@@ -354,5 +352,49 @@ theorem C03_gray_scott_nd (c : Cfg ℂ) (hD : 0 < c.D) (hq : c.fq ≠ 0) (hK : 4
           AliasND.linConv3 c.D c.N (Kc c) (AliasND.dftV c.D c.N xa) (AliasND.dftV c.D c.N xb) (AliasND.dftV c.D c.N xb)
             (AliasND.kvec c.D c.N h) :=
   (AliasND.grayScott_alias_free_nd c hD hq hK hN feed kill xa xb hxa hxb h hh).1 hm
+
+/-! ### the last three terms (`Proofs/AliasND3*.lean`): with these EVERY nonlinear function of the model has its
+alias-free statement in every dimension it is defined in -/
+
+/-- the 3-D rotational term `P(u × ω)`, `ω = ∇ × u` (both cross products are the REGENERATED `cross_product_3d`):
+    on retained modes the Leray projector symbol applied to the alias-free spectrum of
+    `(u×ω)_e = Σ_j u_j ∂_e u_j − u_j ∂_j u_e`, zero on dropped modes -/
+theorem C03_rotational_3d (c : Cfg ℂ) (hD : c.D = 3) (hq : c.fq ≠ 0) (hK : 3 * Kc c < (c.N : ℤ)) (hN : 0 < c.N) (s : ℝ)
+    (hs : c.s = (s : ℂ)) (uh : MC ℂ) (xs : ℕ → Array ℂ) (hx : ∀ ch < 3, AliasND.IsRealND c.D c.N (xs ch))
+    (hu : ∀ ch < 3, uh.getD ch #[] = Transform.rfftnM c.D c.N (xs ch)) (i : ℕ) (hi : i < 3) (h : ℕ)
+    (hh : h < numModes c.D c.N) :
+    (mask c h = 1 → at2 (projected3d c none uh) i h =
+        ∑ e ∈ Finset.range 3, AliasND.lerayPsym c i e (AliasND.kvec c.D c.N h) * ∑ j ∈ Finset.range 3,
+          (AliasND.linConv c.D c.N (Kc c) (AliasND.dftV c.D c.N (xs j)) (AliasND.dspec c e (xs j)) (AliasND.kvec c.D c.N h)
+            - AliasND.linConv c.D c.N (Kc c) (AliasND.dftV c.D c.N (xs j)) (AliasND.dspec c j (xs e))
+                (AliasND.kvec c.D c.N h))) ∧
+      (mask c h = 0 → at2 (projected3d c none uh) i h = 0) :=
+  AliasND.projected3d_alias_free_explicit c hD hq hK hN s hs uh xs hx hu i hi h hh
+
+/-- the general nonlinear term `s₀u² + s₁·½∂(u²) + s₂·½|∇u|²` (model sign conventions), every D -/
+theorem C03_general_nd (c : Cfg ℂ) (hD : 0 < c.D) (hq : c.fq ≠ 0) (hK : 3 * Kc c < (c.N : ℤ)) (hN : 0 < c.N) (s : ℝ)
+    (hs : c.s = (s : ℂ)) (s0 s1 s2 : ℂ) (zeroFix : Bool) (x : Array ℂ) (hx : AliasND.IsRealND c.D c.N x) (h : ℕ)
+    (hh : h < numModes c.D c.N) :
+    (mask c h = 1 → at2 (general c 1 s0 s1 s2 zeroFix #[Transform.rfftnM c.D c.N x]) 0 h =
+        s0 * AliasND.linConv c.D c.N (Kc c) (AliasND.dftV c.D c.N x) (AliasND.dftV c.D c.N x) (AliasND.kvec c.D c.N h)
+        + s1 * ((1 / 2 * ∑ d ∈ Finset.range c.D, deriv c d h) *
+            AliasND.linConv c.D c.N (Kc c) (AliasND.dftV c.D c.N x) (AliasND.dftV c.D c.N x) (AliasND.kvec c.D c.N h))
+        + if zeroFix = true ∧ h = 0 then 0 else
+            s2 * (1 / 2) * ∑ d ∈ Finset.range c.D,
+              AliasND.linConv c.D c.N (Kc c) (AliasND.dspec c d x) (AliasND.dspec c d x) (AliasND.kvec c.D c.N h)) ∧
+      (mask c h = 0 → at2 (general c 1 s0 s1 s2 zeroFix #[Transform.rfftnM c.D c.N x]) 0 h = 0) :=
+  AliasND.general_alias_free_nd c hD hq hK hN s hs s0 s1 s2 zeroFix x hx h hh
+
+/-- Belousov–Zhabotinsky (quadratic: 2/3 rule), every D, three channels -/
+theorem C03_belousov_zhabotinsky_nd (c : Cfg ℂ) (hD : 0 < c.D) (hq : c.fq ≠ 0) (hK : 3 * Kc c < (c.N : ℤ)) (hN : 0 < c.N)
+    (xa xb xd : Array ℂ) (ha : AliasND.IsRealND c.D c.N xa) (hb : AliasND.IsRealND c.D c.N xb)
+    (hd : AliasND.IsRealND c.D c.N xd) (h : ℕ) (hh : h < numModes c.D c.N) (hm : mask c h = 1) :
+    at2 (reaction c 3 bzReact #[Transform.rfftnM c.D c.N xa, Transform.rfftnM c.D c.N xb, Transform.rfftnM c.D c.N xd]) 2 h
+      = (Transform.rfftnM c.D c.N xa).getD h 0 - (Transform.rfftnM c.D c.N xd).getD h 0 ∧
+    at2 (reaction c 3 bzReact #[Transform.rfftnM c.D c.N xa, Transform.rfftnM c.D c.N xb, Transform.rfftnM c.D c.N xd]) 1 h
+      = (Transform.rfftnM c.D c.N xd).getD h 0 - (Transform.rfftnM c.D c.N xb).getD h 0
+        - AliasND.linConv c.D c.N (Kc c) (AliasND.dftV c.D c.N xa) (AliasND.dftV c.D c.N xb) (AliasND.kvec c.D c.N h) := by
+  have := (AliasND.bz_alias_free_nd c hD hq hK hN xa xb xd ha hb hd h hh).1 hm
+  exact ⟨this.2.2, this.2.1⟩
 
 end Exponax
